@@ -119,9 +119,22 @@ impl Response for Arbitrary<'_> {
     }
 }
 
+/// Writes a string as quoted response data. A double quote inside the string
+/// is doubled, as required by IEEE 488.2 for string response data.
+async fn write_quoted(f: &mut impl Write, value: &str) -> Result<(), Error> {
+    f.write_char('"').await?;
+    for (index, part) in value.split('"').enumerate() {
+        if index > 0 {
+            f.write_str("\"\"").await?;
+        }
+        f.write_str(part).await?;
+    }
+    f.write_char('"').await
+}
+
 impl Response for &str {
     async fn write_response(&self, f: &mut impl Write) -> Result<(), Error> {
-        write!(f, "\"{self}\"").await
+        write_quoted(f, self).await
     }
 }
 
@@ -225,7 +238,7 @@ impl Response for f64 {
 
 impl<const N: usize> Response for heapless::String<N> {
     async fn write_response(&self, f: &mut impl Write) -> Result<(), Error> {
-        write!(f, "\"{}\"", self.as_str()).await
+        write_quoted(f, self.as_str()).await
     }
 }
 
@@ -244,7 +257,7 @@ impl<const N: usize, T: Response> Response for heapless::Vec<T, N> {
 #[cfg(feature = "std")]
 impl Response for std::string::String {
     async fn write_response(&self, f: &mut impl Write) -> Result<(), Error> {
-        write!(f, "\"{}\"", self.as_str()).await
+        write_quoted(f, self.as_str()).await
     }
 }
 
